@@ -30,6 +30,14 @@ var solvers = []solverSpec{
 	{"z3-4.8.12", func(f string, t time.Duration) []string {
 		return []string{"z3", fmt.Sprintf("-T:%d", int(t.Seconds())+1), f}
 	}},
+	// the same solver with other random seeds: quantifier instantiation order is seed dependent, and an obligation
+	// that one seed proves in a second can take another seed minutes
+	{"z3-5.1.0/seed1", func(f string, t time.Duration) []string {
+		return []string{"z3-new", fmt.Sprintf("-T:%d", int(t.Seconds())+1), "smt.random_seed=1", "sat.random_seed=1", f}
+	}},
+	{"z3-5.1.0/seed2", func(f string, t time.Duration) []string {
+		return []string{"z3-new", fmt.Sprintf("-T:%d", int(t.Seconds())+1), "smt.random_seed=2", "sat.random_seed=2", f}
+	}},
 }
 
 type solveResult struct {
